@@ -68,10 +68,14 @@ MENU = [
     ("all", "__all__ = ['AX', 'afn']\nAX = 1\ndef afn(): ...\ndef not_exported(): ..."),
     ("private", "def _private(a): ...\n_PX = 1"),
     ("method-special", "class Sp:\n    def __eq__(self, other): return True\n    def __repr__(self): return 'Sp'\n"),
+    ("attr-none", "N = None\nclass HasNone:\n    cn = None\n    def hm(self, p=None): ...\n"),
+    ("doc-shapes", 'def ds1():\n    """\n    Title\n        indented\n    """\ndef ds2():\n    """Title\n\n        code\n    text\n    """\nclass DS3:\n    """\n        Deep\n            deeper\n    """\n'),
     ("class-attr-annotated", "class Ann:\n    a: int = 1\n    b: str = 'x'\n"),
 ]
 _MAX = {"quick": 3, "thorough": 4}
-INIT_VARIANTS = [("empty", ""), ("reexport", "from pkg.sib import SibClass\nfrom pkg.mod import *\n")]
+INIT_VARIANTS = [("empty", ""), ("reexport", "from pkg.sib import SibClass\nfrom pkg.mod import *\n"),
+                 # the package binds its own submodules as module objects, under their own and under other names
+                 ("module-imports", "from . import sib as s\nfrom . import mod\nimport pkg.sib as subpackage\nfrom pkg import mod as m2\nfrom .sib import sib_func as sf, VALUE\n")]
 
 
 def bounds(tier):
@@ -84,7 +88,7 @@ def all_cases(tier):
             if sum(MENU[i][0] == "doc" for i in combo) and combo[0] != 0:
                 continue
             for iv in range(len(INIT_VARIANTS)):
-                if iv == 1 and n == _MAX[tier] and tier == "thorough":
+                if iv >= 1 and n == _MAX[tier] and (tier == "thorough" or iv == 2):
                     continue
                 yield (combo, iv)
 
@@ -211,6 +215,9 @@ def run_case(griffe, acc, case):
         construct = next((MENU[i][0] for i in combo if f" {owner}" in MENU[i][1] or f"{owner} =" in MENU[i][1] or f"{owner}:" in MENU[i][1] or f"as {owner}" in MENU[i][1]), "init" if p.startswith("pkg.") else "?")
         if p == "pkg.pkg":
             construct = "import-module-dotted"
+        init_src = INIT_VARIANTS[iv][1]
+        if p.startswith("pkg.") and p.count(".") == 1 and (f"as {owner}\n" in init_src or f"as {owner}," in init_src or f"import {owner}\n" in init_src or f", {owner}\n" in init_src):
+            construct = "init:" + INIT_VARIANTS[iv][0]
         leaf = p.split(".")[-1]
         acc.violation(f"skeleton/{construct}/{field}/{leaf if construct != '?' else 'unknown'}", f"{p}: {field}: static {a!r} vs dynamic {b!r}", cd, None, size=size)
 
